@@ -1,0 +1,71 @@
+// Instrumentation for trace validation (compiled only with `--cfg scale_info_verif`).
+//
+// Every `Registry` gets a tag; `register_type` logs one event when it is entered and one when it
+// returns, `Registry::types` (through which a registry is converted) logs the ids it lists. Events are appended, one
+// JSON object per line, to the file named by the environment variable
+// `SCALE_INFO_VERIF_TRACE` (nothing is written when it is not set). The events are ordered by
+// the sink's mutex; a registry is only ever used through `&mut self`, so the events of one
+// registry are totally ordered in the file.
+
+extern crate std;
+
+use crate::prelude::any::TypeId;
+use std::{
+    format,
+    io::Write,
+    string::String,
+    sync::{
+        atomic::{AtomicU64, Ordering},
+        Mutex,
+    },
+};
+
+static NEXT: AtomicU64 = AtomicU64::new(0);
+static SINK: Mutex<Option<Option<std::fs::File>>> = Mutex::new(None);
+
+/// Identifies one `Registry` value in the trace. Compares equal to every other tag, so that the
+/// derived `PartialEq` of `Registry` keeps comparing the registries' contents only.
+#[derive(Debug, Clone, Copy)]
+pub struct RegistryTag(u64);
+
+impl PartialEq for RegistryTag {
+    fn eq(&self, _: &Self) -> bool {
+        true
+    }
+}
+impl Eq for RegistryTag {}
+
+impl RegistryTag {
+    pub fn fresh() -> Self {
+        let tag = RegistryTag(NEXT.fetch_add(1, Ordering::SeqCst));
+        emit(format!("\"ev\":\"new\",\"reg\":{}", tag.0));
+        tag
+    }
+    pub fn enter(&self, type_id: TypeId) {
+        emit(format!("\"ev\":\"enter\",\"reg\":{},\"tid\":\"{:?}\"", self.0, type_id));
+    }
+    pub fn exit(&self, type_id: TypeId, id: u32, inserted: bool) {
+        emit(format!(
+            "\"ev\":\"exit\",\"reg\":{},\"tid\":\"{:?}\",\"id\":{},\"inserted\":{}",
+            self.0, type_id, id, inserted
+        ));
+    }
+    pub fn listed(&self, ids: &[u32]) {
+        emit(format!("\"ev\":\"finish\",\"reg\":{},\"ids\":{:?}", self.0, ids));
+    }
+}
+
+fn emit(body: String) {
+    let mut sink = match SINK.lock() {
+        Ok(g) => g,
+        Err(p) => p.into_inner(),
+    };
+    if sink.is_none() {
+        *sink = Some(std::env::var_os("SCALE_INFO_VERIF_TRACE").and_then(|p| {
+            std::fs::OpenOptions::new().create(true).append(true).open(p).ok()
+        }));
+    }
+    if let Some(Some(f)) = sink.as_mut() {
+        let _ = f.write_all(format!("{{\"pid\":{},{}}}\n", std::process::id(), body).as_bytes());
+    }
+}
